@@ -83,6 +83,10 @@ PKG_SPECS = {
     'IDL': {'vol': ['Water', 'Ethanol', '1-Butanol', 'Octane', 'Tetradecanol'], 'gas': ['N2', 'CO2'],
             'liq': ['Glycerol'], 'sol': ['Glucose'], 'family': None, 'ideal_of': 'MIX'},
 }
+# an ideal package over the SAME chemical IDs as IDL but built from other Chemical objects, two of which carry a
+# user-registered vapour-pressure model (Psat.add_method): solver objects cached per process must not be shared
+# between packages that merely agree in their IDs
+PKG_SPECS['IDL2'] = dict(PKG_SPECS['IDL'], ideal_of=None, clone=True, psat_scale={'Ethanol': 1.25, 'Octane': 0.8})
 LOCK_KW = {'gas': 'g', 'liq': 'l', 'sol': 's'}
 
 
@@ -123,6 +127,18 @@ class EqPackage:
             base = package(spec['ideal_of'])
             self.chems = base.chems
             self.thermo = base.thermo.ideal()
+        elif spec.get('clone'):
+            self.chems = []
+            for cid, lk in zip(self.ids, self.lock):
+                c = tmo.Chemical(cid, phase=lk) if lk else tmo.Chemical(cid)
+                if cid == 'Glycerol':
+                    c.N_solutes = 1
+                k = spec['psat_scale'].get(cid)
+                if k:
+                    ref = tmo.Chemical(cid).Psat          # an untouched model object of its own
+                    c.Psat.add_method(f=(lambda T, _f=ref, _k=k: _k * _f(T)), Tmin=c.Psat.Tmin, Tmax=c.Psat.Tmax)
+                self.chems.append(c)
+            self.thermo = tmo.Thermo(tmo.Chemicals(self.chems)).ideal()
         else:
             self.chems = [_chemical(cid, lk) for cid, lk in zip(self.ids, self.lock)]
             self.thermo = tmo.Thermo(tmo.Chemicals(self.chems))
@@ -136,7 +152,7 @@ class EqPackage:
                                  for k, c in enumerate(self.chems)])
         self.MW = np.array([c.MW for c in self.chems], dtype=float)
         self.family = spec['family']
-        self.ideal = bool(spec['ideal_of'])
+        self.ideal = bool(spec['ideal_of']) or bool(spec.get('clone'))
         # the reference flashes below assume K_i = gamma_i Psat_i / P  (phi = 1, Poynting = 1)
         self.simple_K = ('Ideal' in self.thermo.Phi.__name__ and 'Mock' in self.thermo.PCF.__name__)
 
@@ -164,6 +180,12 @@ def reset_globals():
     for pid in PKG_SPECS:
         if ('pkg', pid) in _cache:
             _cache[('pkg', pid)].compiled._index_cache.clear()
+    # per-process solver objects (bubble / dew point objects are cached by chemical tuple and model classes):
+    # a restarted process starts without them, and a run must not depend on which run created them
+    from thermosteam.equilibrium import bubble_point as _bp, dew_point as _dp
+    for cls in (_bp.BubblePoint, getattr(_bp, 'BubblePointBeta', None), _dp.DewPoint):
+        if cls is not None and isinstance(getattr(cls, '_cached', None), dict):
+            cls._cached.clear()
     tmo.settings.set_thermo(package('MIX').thermo)
 
 
@@ -519,11 +541,11 @@ def draw_rows(r, pid, prop, phases, tot):
 
 def make_cfg(rng, prop, tier):
     lo, hi = tier.get('steps', (15, 40))
-    pids = ['ALC', 'HC', 'IDL', 'MIX']
+    pids = ['ALC', 'HC', 'IDL', 'IDL2', 'MIX']
     if prop == 'C03':
         pool = rng.sample(['MIX', 'MIX', 'ALC', 'HC', 'IDL'], rng.randint(2, 3))
     else:
-        pool = rng.sample(['ALC', 'ALC', 'HC', 'HC', 'IDL', 'IDL', 'MIX'], rng.randint(2, 3))
+        pool = rng.sample(['ALC', 'ALC', 'HC', 'HC', 'IDL', 'IDL', 'IDL2', 'IDL2', 'MIX'], rng.randint(2, 3))
     pool = [p for p in pids if p in pool]
     win = WINDOWS[prop]
     n_streams = rng.randint(3, 6)
@@ -536,6 +558,15 @@ def make_cfg(rng, prop, tier):
                         'T': r6(rng.uniform(*win['T'])), 'P': r6(10 ** rng.uniform(math.log10(win['P'][0]),
                                                                                  math.log10(win['P'][1]))),
                         'rows': draw_rows(rng, pid, prop, phases, tot)})
+    if prop == 'C04' and 'IDL2' in pool:
+        # the same feed on both ideal packages (same IDs, other Chemical objects / vapour pressures): IDL first
+        src = next((sp for sp in streams if sp['pkg'] in ('IDL', 'IDL2')), None)
+        if src is not None:
+            a = dict(src, pkg='IDL')
+            b = dict(src, pkg='IDL2', name=f's{n_streams}')
+            streams[streams.index(src)] = a
+            streams.append(b)
+            n_streams += 1
     kinds = TASK_KINDS[prop]
     tasks = []
     for i in range(n_streams):           # every stream has a flash-type task of its own
@@ -660,7 +691,12 @@ class EqWorld(BaseWorld):
         self.baseline_keys = set()    # (stream, specification pair) combinations with a baseline miss
         self.checked_keys = set()     # ... that were judged at all
         self.cur_key = None
-        for pid in sorted({spec['pkg'] for spec in cfg['streams']}):
+        used = {spec['pkg'] for spec in cfg['streams']}
+        if used & {'IDL', 'IDL2'}:
+            # the two packages agree in their chemical IDs: whichever is used first in a process creates the
+            # per-process solver objects.  Fixed order, so that a run means the same in every process
+            used |= {'IDL', 'IDL2'}
+        for pid in sorted(used):
             warm_package(pid)
         for spec in cfg['streams']:
             s = self._create(spec['pkg'], spec['phases'], spec['T'], spec['P'], spec['rows'], 1.0)
